@@ -139,7 +139,12 @@ func newGenericObjectSetController(
 		},
 	)
 
-	controller.teardownHandler = phasesReconciler
+	sliceLoadReconciler := newObjectSliceLoadReconciler(scheme, client, newObjectSlice)
+
+	controller.teardownHandler = &sliceLoadingTeardownHandler{
+		sliceLoader:     sliceLoadReconciler,
+		teardownHandler: phasesReconciler,
+	}
 
 	controller.reconciler = []reconciler{
 		&revisionReconciler{
@@ -147,11 +152,27 @@ func newGenericObjectSetController(
 			client:       client,
 			newObjectSet: newObjectSet,
 		},
-		newObjectSliceLoadReconciler(scheme, client, newObjectSlice),
+		sliceLoadReconciler,
 		phasesReconciler,
 	}
 
 	return controller
+}
+
+// sliceLoadingTeardownHandler inlines the objects referenced via ObjectSlices before teardown,
+// so objects stored in slices are torn down like inline objects.
+type sliceLoadingTeardownHandler struct {
+	sliceLoader     reconciler
+	teardownHandler teardownHandler
+}
+
+func (h *sliceLoadingTeardownHandler) Teardown(
+	ctx context.Context, objectSet adapters.ObjectSetAccessor,
+) (cleanupDone bool, err error) {
+	if _, err := h.sliceLoader.Reconcile(ctx, objectSet); err != nil {
+		return false, fmt.Errorf("loading ObjectSlices for teardown: %w", err)
+	}
+	return h.teardownHandler.Teardown(ctx, objectSet)
 }
 
 func (c *GenericObjectSetController) SetupWithManager(mgr ctrl.Manager) error {
